@@ -104,6 +104,21 @@ DESC = {
     'C17-k': '`-> {block}` operands not hoisted', 'C17-l': '`std::thread::current()` without leading `::` in the thread-builder helper',
     'C18-h': '`let x = a || b`: right operand (and its panic) dropped', 'C19-i': '`~??` in sync macros borrows `{ prev }` and moves it again (requires Copy)',
     'C20-i': 'helper definitions memoised behind a Mutex whose guard is alive across a panicking misconfigured expansion (poisoned afterwards)',
+    # round 7
+    'C01-j': 'wrapper closures become `move` (writes to captured Copy locals go to a private copy)', 'C01-k': 'an operand ending in `?` swallows the following operator / comma',
+    'C02-i': 'end-of-step closing of open wrappers bounded one short in later steps (a step that is only `~X >>>` openers keeps a wrapper unclosed)', 'C03-f': '`~` on the operator that follows an operand-less operator (`<<<`, `^^>`, `|n>`, untyped `=>[]`) is swallowed',
+    'C05-h': 'hoisted-operand names of later actions built with swapped (branch, action) indices (branch 0 applies another branch\'s closure)', 'C06-i': 'failure check skipped for a branch whose next step starts with `~!>`',
+    'C07-i': 'runtime handle resolved at the start of every task-spawning expansion (single-branch programs need a runtime)', 'C08-l': 'the step\'s "last" thread (picked by index == active count) is spawned and joined in place',
+    'C08-m': 'an empty caller name is treated as unnamed', 'C09-l': 'async steps wider than 16 branches are joined group by group (branches 16+ wait for 0..15)',
+    'C09-m': 'async macros: a block-valued handler operand is evaluated when the future is built', 'C10-k': 'sync try: no failure check after a step with a single active branch (later non-short-circuiting operators and captures run)',
+    'C11-m': 'per-wrapper-level definition streams joined inner-first (a block inside a wrapper is evaluated before an earlier block outside it)',
+    'C13-k': 'a second handler is parsed as a branch (`map => g` becomes `(map).and_then(g)`)', 'C14-m': 'operand completeness not re-checked for operators of 3+ tokens (`|n| n > 2` splits at `|n>`)',
+    'C14-n': 'a handler in front of the first branch is parsed as a branch', 'C15-m': 'wrapper determiner `>>` `>` counted in token trees (junk after `>>` erased and accepted)',
+    'C15-n': 'precomputed name tables of 16 entries indexed with `<=` (17 branches / 17 steps panic)', 'C16-m': 'sync try + transpose_results(false): step values re-wrapped in Ok at every step boundary',
+    'C16-n': 'transpose_results(true) applied to non-try macros (results transposed, later steps dropped)', 'C17-m': 'hoisted definitions carried in a BTreeMap keyed by name (lexicographic order from index 10 on)',
+    'C18-i': 'task-spawning macros build the chain of a continued step inside the task (an operand panic becomes a JoinError a failing sibling can pre-empt)', 'C19-j': '`-> {block}`: the hoisted callable is called through an immutable binding (FnMut closures rejected)',
+    'C04-h': 'active branches of a step kept in one machine word (65+ branches: shift overflow panic)', 'C12-l': 'spawn variants: the first `~` of a branch whose step 0 is only a block value does not start a step (names one step ahead / stale)',
+    'C20-j': 'async/sync choice of `??` rendering passed through a process-wide static (a concurrent sync expansion flips it)',
 }
 rows = []
 for m in sorted(os.listdir(os.path.join(V, "seeded"))):
